@@ -405,8 +405,8 @@ def random_histories(H, n, length):
             ok, key, c, m = step(cx, hist, op)
             hist += (op,)
             H.ev(key=('rnd', H.seed, i, j), nontrivial=True, part='random')
-            if not ok or (j % 4 == 3 or j == length - 1) and not destructive(cx, hist):
-                break
+            if not ok or not eq_checks(cx, c, m, hist) or not destructive(cx, hist):
+                break                      # as in explore(): nothing is built on a state that already diverged
         if H.out_of_time(0.95):
             H.note_truncated('random histories stopped after %d of %d' % (i, n))
             break
